@@ -447,11 +447,49 @@ def main(argv):
                 meta, verdicts, errors = cached["meta"], cached["verdicts"], cached["errors"]
                 log.append("reused shared run " + cache_file)
             else:
-                rok, rout = run_harness(binpath, rargs, outdir, timeout=h.get("timeout", 1500))
-                if not rok:
-                    problems.append(("harness-run", "harness %s %s failed:\n%s" % (h["cmd"], rname, rout[-2500:]), None))
-                    continue
-                meta, verdicts, errors = evaluate_dir(outdir)
+                procs = h.get("procs", 1) if rname == "gen" else 1
+                if procs > 1:
+                    # several harness processes in parallel, each with its own sub-seed
+                    def one(i):
+                        a = list(rargs)
+                        a[a.index("-seed") + 1] = str(seed * 1000 + i)
+                        a[a.index("-cases") + 1] = str(max(1, int(a[a.index("-cases") + 1]) // procs))
+                        a[a.index("-shards") + 1] = str(max(1, int(a[a.index("-shards") + 1]) // procs))
+                        d = "%s_p%d" % (outdir, i)
+                        ok_, out_ = run_harness(binpath, a, d, timeout=h.get("timeout", 1500))
+                        if not ok_:
+                            return None, out_
+                        return evaluate_dir(d), None
+                    with cf.ThreadPoolExecutor(max_workers=procs) as ex:
+                        parts = list(ex.map(one, range(procs)))
+                    bad = [o for (r_, o) in parts if r_ is None]
+                    if bad:
+                        problems.append(("harness-run", "harness %s %s failed:\n%s" % (h["cmd"], rname, bad[0][-2500:]), None))
+                        continue
+                    meta, verdicts, errors = None, [], []
+                    for i, (r_, _) in enumerate(parts):
+                        m_, v_, e_ = r_
+                        for v in v_:
+                            v["shard"] = "p%d_%s" % (i, v["shard"])
+                        verdicts += v_
+                        errors += e_
+                        if meta is None:
+                            meta = m_
+                        else:
+                            for k in ("cases", "events", "distinct_nontrivial", "skipped"):
+                                meta[k] = meta.get(k, 0) + m_.get(k, 0)
+                            for k in ("op_histogram", "outcome_histogram"):
+                                for kk, vv in m_[k].items():
+                                    meta[k][kk] = meta[k].get(kk, 0) + vv
+                            for kk, vv in m_["extra_max"].items():
+                                meta["extra_max"][kk] = max(meta["extra_max"].get(kk, 0), vv)
+                            meta["exec_errors"] = (meta.get("exec_errors") or []) + (m_.get("exec_errors") or [])
+                else:
+                    rok, rout = run_harness(binpath, rargs, outdir, timeout=h.get("timeout", 1500))
+                    if not rok:
+                        problems.append(("harness-run", "harness %s %s failed:\n%s" % (h["cmd"], rname, rout[-2500:]), None))
+                        continue
+                    meta, verdicts, errors = evaluate_dir(outdir)
                 if cache_file and not errors:
                     os.makedirs(os.path.dirname(cache_file), exist_ok=True)
                     json.dump({"meta": meta, "verdicts": verdicts, "errors": errors}, open(cache_file, "w"))
